@@ -262,7 +262,10 @@ def feature_orders(run):
              '=COUNTIFS(A1:A3,"3")', '=COUNTIFS(A1:A3,3)', '=SUMIF(A1:A3,">3")', '=SUMIF(A1:A3,">2")', '=COUNTIFS(A1:A3,"<>3")', '=COUNTIFS(D1:D3,"3")', '=SUMIFS(A1:A3,A1:A3,2)',
              '=SUMIFS(A1:A3,A1:A3,"2")', '=SUMIFS(A1:A3,A1:A3,2.0)', '=COUNTIFS(A1:A3,TRUE)', '=COUNTIFS(A1:A3,"TRUE")', '=COUNTIFS(A1:A3,1)', '=COUNTIFS(A1:A3,"1")',
              '=VALUE("3")', '=VALUE("3.0")', '=LEFT("3",1)', '=IF("1"=1,1,2)', '=IF(1=1,1,2)', '=MATCH("2",A1:A3,0)', '=MATCH(2.0,A1:A3,0)', '=AVERAGEIFS(A1:A3,B1:B3,"5")',
-             '=AVERAGEIFS(A1:A3,B1:B3,5)', '=SEARCH("1",D1&"1")', '=SEARCH(1,D1&"1")', '=COUNTIFS(B1:B3,"2024-01-05")', '=COUNTIFS(B1:B3,DATE(2024,1,5))']
+             '=AVERAGEIFS(A1:A3,B1:B3,5)', '=SEARCH("1",D1&"1")', '=SEARCH(1,D1&"1")', '=COUNTIFS(B1:B3,"2024-01-05")', '=COUNTIFS(B1:B3,DATE(2024,1,5))',
+             # a range that holds several DIFFERENT error values (H1:H3): which of them an aggregate reports is a function of the workbook
+             '=MIN(H1:H3)', '=MIN(H3,H1:H2)', '=COUNTBLANK(H1:H3)', '=IFERROR(MIN(H1:H3),"e")', '=MAX(H2:H3)', '=SUM(H1:H3)', '=IFS(H1,1,TRUE,2)']
+    feats[(7, 0)], feats[(7, 1)], feats[(7, 2)] = '#N/A', '#NUM!', '#REF!'
     n0 = max(r for (c, r) in feats if c == 5) + 1
     for i, f in enumerate(extra):
         feats[(5, n0 + i)] = f
@@ -279,6 +282,22 @@ def feature_orders(run):
         except Exception as e:  # noqa
             return ('exc', type(e).__name__)
     ref = [val(repo.Executor().set_executed_class(class_file=py), r) for r in range(rows)]
+    # the same cells in other PROCESSES with other string-hash seeds: the value of a cell is a function of the workbook and the overrides
+    script = ('import sys, json\nsys.path.insert(0, %r)\nfrom excel2pycl import Executor, Cell\nex = Executor().set_executed_class(class_file=%r)\nout = []\n'
+              'for r in range(%d):\n    try:\n        out.append(repr(("val", ex.get_cell(Cell(0, 5, r)).value)))\n    except Exception as e:\n        out.append(repr(("exc", type(e).__name__)))\n'
+              'print(json.dumps(out))\n') % (repo.REPO, py, rows)
+    for hs in ('1', '2', '3', '5', '8', '13'):
+        import subprocess
+        import sys as _sys
+        pr = subprocess.run([_sys.executable, '-c', script], env=dict(os.environ, PYTHONHASHSEED=hs), stdout=subprocess.PIPE, stderr=subprocess.PIPE, text=True, timeout=300)
+        if pr.returncode:
+            raise core.MachineryError('hash-seed sweep: ' + pr.stderr[-300:])
+        got = json.loads(pr.stdout.strip().splitlines()[-1])
+        bad = [(feats[(5, r)], got[r], repr(ref[r])) for r in range(rows) if got[r] != repr(ref[r]) and 'datetime' not in got[r]]
+        run.judge({'in': {'hash_seed': hs, 'formulas': rows}, 'obs': str(bad[:4]), 'kind': 'feature_hashseeds'}, not bad,
+                  clause=f'{rows} formula cells evaluated in another process with PYTHONHASHSEED={hs}: (formula, got, value in this process) {bad[:3]}', part='feature_hashseeds')
+        run.traces_validated += 1
+        run.evaluations += rows
     rng = random.Random(run.seed + 808)
     klass = type(repo.Executor().set_executed_class(class_file=py).get_executed_class())
     for rep in range(6):
